@@ -68,6 +68,7 @@ type swarm struct {
 	detach     bool // saves of index.d2 may drop / restore the import of b.d2
 	navigate   bool // multi-board input and a browser tab that navigates between boards (page GETs)
 	fFsErr     bool // the fsnotify Errors channel delivers errors
+	checkpoint bool // after some saves the editor pauses and the end-of-run conditions are checked
 }
 
 type frame struct {
@@ -128,9 +129,10 @@ type world struct {
 
 	mainVer, impVer  int
 	imp2Ver          int
-	attached         bool     // the content of index.d2 on disk (after the save in progress) imports b.d2
-	navBoard         int      // board the browser tab navigated to last (0 = root)
+	attached         bool // the content of index.d2 on disk (after the save in progress) imports b.d2
+	navBoard         int  // board the browser tab navigated to last (0 = root)
 	navsDone         atomic.Bool
+	wantCheckpoint   atomic.Bool
 	stored           []uint64 // hash of every result the compile loop stored, in order
 	editsDone        atomic.Bool
 	closeBegun       atomic.Bool
@@ -385,7 +387,7 @@ func (w *world) editor() {
 		// may touch the tape.)
 		style := w.sim.Park("editor:edit", []sched.Option{{"truncate-write", 4}, {"rename-over", 3}, {"rename-away-create", 2}})
 		which := 0 // 0 index.d2, 1 b.d2, 2 c.d2
-		if w.cfg.imports && w.tp.Chance(1, 3, "edit.import") {
+		if w.cfg.imports && w.tp.Chance(2, 5, "edit.import") {
 			which = 1
 			if w.cfg.nested && w.tp.Chance(1, 2, "edit.import2") {
 				which = 2
@@ -476,6 +478,12 @@ func (w *world) editor() {
 		}
 		w.saveInProgress.Store(0)
 		w.sim.Logf("editor: version %d of %s is on disk", ver, filepath.Base(path))
+		if w.cfg.checkpoint && w.cfg.profile == "C44" && e < w.cfg.edits-1 && w.tp.Chance(1, 3, "edit.checkpoint") {
+			// The user stops typing for a while after this save: every save may be the
+			// last one for a minute, so a lost update shows even when a later save would
+			// have repaired it.
+			w.wantCheckpoint.Store(true)
+		}
 	}
 }
 
@@ -582,8 +590,6 @@ func (w *world) browser(c *client) {
 		}
 	}
 	gc := &gatedConn{Conn: conn, beforeWrite: gate("hs-send"), midWrite: gate("hs-mid"), beforeRead: gate("hs-await")}
-	gc.eachRead = func() { w.park(c, "hs-read:"+c.name, sched.Go) }
-	gc.afterRead = func() { w.park(c, "hs-got:"+c.name, sched.Go) }
 	hc := &http.Client{Transport: &http.Transport{
 		DialContext: func(context.Context, string, string) (net.Conn, error) {
 			if dialled {
@@ -600,6 +606,15 @@ func (w *world) browser(c *client) {
 		if resp != nil {
 			st = fmt.Sprintf("rejected-%d", resp.StatusCode)
 		}
+		// The handshake failed (a refusal, or — when the upgrade response was lost to a
+		// server-side deadline — a ping, a close frame or a result where the response should
+		// have been; which of them is decided between goroutines inside the websocket
+		// library). What the browser does about it, closing the connection, is a decision
+		// of its own: by then every server goroutine is blocked on the pipe or done, so the
+		// close never races with a write in progress. The reads inside the handshake are
+		// not scheduling points: how many of them a failing handshake needs depends on
+		// that library-internal order.
+		w.park(c, "hs-fail:"+c.name, sched.Go)
 		conn.Close()
 		w.setState(c, st, err.Error())
 		return
@@ -690,10 +705,10 @@ func (w *world) navigator(n int) {
 // server's response is read.
 type gatedConn struct {
 	net.Conn
-	beforeWrite, midWrite, beforeRead, eachRead func()
-	afterRead                                   func()
-	wOnce, rOnce                                sync.Once
-	established                                 atomic.Bool
+	beforeWrite, midWrite, beforeRead func()
+
+	wOnce, rOnce sync.Once
+	established  atomic.Bool
 }
 
 func (g *gatedConn) Write(p []byte) (n int, err error) {
@@ -712,25 +727,26 @@ func (g *gatedConn) Write(p []byte) (n int, err error) {
 	return n + m, err
 }
 
-// Read: until the handshake is over every read of the browser is a scheduling decision, so
-// that the browser's reaction to what it received (parse it, give up and close) never runs
-// concurrently with the server goroutine that is still writing.
+// Read: the first read of the browser (the wait for the server's response) is a scheduling
+// decision; see the comment at "hs-fail" for why the later ones are not.
 func (g *gatedConn) Read(p []byte) (int, error) {
 	first := false
 	g.rOnce.Do(func() { first = true })
 	if first {
 		g.beforeRead()
-	} else if !g.established.Load() {
-		g.eachRead()
 	}
-	n, err := g.Conn.Read(p)
-	if !g.established.Load() && g.afterRead != nil {
-		// What the browser does with what it read (accept the 101, or give up and close
-		// because something else arrived) is a decision of its own: the server goroutine
-		// that wrote it is by then blocked on the pipe or done, never in the middle.
-		g.afterRead()
+	return g.Conn.Read(p)
+}
+
+// Close: when the HTTP client gives up on a handshake it closes the connection itself, from
+// one of its own goroutines and under one of its own mutexes (no place to park). Until the
+// handshake is over that close is held back: the connection really closes when the
+// simulator releases the browser from "hs-fail".
+func (g *gatedConn) Close() error {
+	if !g.established.Load() {
+		return nil
 	}
-	return n, err
+	return g.Conn.Close()
 }
 
 // ---- the run
@@ -799,7 +815,7 @@ func runInBubble(hcfg harness.Config, idx int, tp *tape.Tape, dir string, res *h
 		profile:    hcfg.Property,
 		clients:    1 + tp.Weighted([]int{4, 3, 2, 1, 1}, "cfg.clients"),
 		edits:      tp.Weighted([]int{1, 2, 3, 3, 3, 2, 2, 1, 1, 1, 1, 1, 1}, "cfg.edits"),
-		imports:    tp.Chance(1, 3, "cfg.imports"),
+		imports:    tp.Chance(1, 2, "cfg.imports"),
 		dagre:      tp.Chance(1, 12, "cfg.dagre"),
 		fStall:     tp.Chance(1, 3, "cfg.stall"),
 		fClose:     tp.Chance(1, 2, "cfg.close"),
@@ -824,10 +840,11 @@ func runInBubble(hcfg harness.Config, idx int, tp *tape.Tape, dir string, res *h
 	w.cfg.detach = w.cfg.imports && tp.Chance(1, 3, "cfg.detach")
 	w.cfg.navigate = tp.Chance(1, 4, "cfg.navigate")
 	w.cfg.fFsErr = tp.Chance(1, 4, "cfg.fserr")
+	w.cfg.checkpoint = tp.Chance(2, 3, "cfg.checkpoint")
 	w.attached = w.cfg.imports
 	sim.TimeWeight = 1
 	for _, cl := range []string{"req", "compile.wait", "compile.start", "compile.bcast", "bcast.res", "bcast.clients", "ws.admit", "ws.accept", "ws.register",
-		"wl.getres", "wl.wait", "close", "close.cancel", "close.wait", "fs", "layout", "fsn", "kernel", "editor", "browser", "hs-send", "hs-mid", "hs-await", "hs-read", "hs-got", "nav"} {
+		"wl.getres", "wl.wait", "close", "close.cancel", "close.wait", "fs", "layout", "fsn", "kernel", "editor", "browser", "hs-send", "hs-mid", "hs-await", "hs-fail", "nav"} {
 		sim.ClassWeight[cl] = 2 + tp.Draw(10, "cfg.w."+cl)
 	}
 	sim.ClassWeight["operator"] = 0
@@ -974,8 +991,9 @@ func runInBubble(hcfg harness.Config, idx int, tp *tape.Tape, dir string, res *h
 			}
 		}
 		allowTime := true
-		if w.cfg.profile == "C44" && w.cfg.gateEditor && w.cfg.stretch != 0 && !w.signalled.Load() && !w.editsDone.Load() &&
-			!w.inCompile.Load() && !w.publishing.Load() && sim.Steps-w.lastInflightStep >= 30 && w.checkpointAt != w.stateKey() && w.saveInProgress.Load() == 0 {
+		gateCheckpoint := w.cfg.gateEditor && w.cfg.stretch != 0 && !w.inCompile.Load() && !w.publishing.Load() && sim.Steps-w.lastInflightStep >= 30 && w.checkpointAt != w.stateKey()
+		if w.cfg.profile == "C44" && !w.signalled.Load() && !w.editsDone.Load() && w.saveInProgress.Load() == 0 && (gateCheckpoint || w.wantCheckpoint.Load()) {
+			w.wantCheckpoint.Store(false)
 			// Mid-run checkpoint: the editor pauses, faults pause, 60 simulated seconds
 			// pass, and the same conditions as at the end of the run must hold. This makes
 			// every lost update visible, not only one that happens to be the last.
@@ -987,6 +1005,7 @@ func runInBubble(hcfg harness.Config, idx int, tp *tape.Tape, dir string, res *h
 			w.checkC44()
 			w.settling.Store(false)
 			w.kernel.NoFaults = false
+			sim.ClassWeight["editor"] = w.baseWeight["editor"]
 			w.res.Probe("midrun_checkpoints")
 			if w.res.Oracle != "" {
 				break
